@@ -241,9 +241,61 @@ class Check(Property):
             return r
         return frac_s(Fraction(r))
 
+    def fixed_probes(self):
+        """run once per check: (1) an in-place product / quotient leaves the OTHER operand alone (array target, scalar other, also
+        an offset unit in autoconvert mode); (2) int magnitudes in the Fraction registry: reflected and in-place true division
+        agree exactly with the plain form"""
+        import numpy as np
+        import pint
+        v = []
+        for kw, b_units in (({}, "centimeter"), ({"autoconvert_offset_to_baseunit": True}, "degree_Celsius"),
+                            ({"autoconvert_offset_to_baseunit": True}, "kelvin")):
+            r = regs.ureg("float", **kw)
+            for name, op in (("*=", operator.imul), ("/=", operator.itruediv)):
+                a = r.Quantity(np.array([1.0, 2.0]), "meter")
+                b = r.Quantity(5.0, b_units)
+                try:
+                    op(a, b)
+                except Exception:  # noqa: BLE001
+                    continue
+                if b.magnitude != 5.0 or str(b.units) != b_units:
+                    v.append(f"C03 in-place {name} with the operand Quantity(5.0, {b_units!r}) {kw}: the operand now reads {b!r}")
+        f = regs.ureg("fraction")
+        for n in (3, 7):
+            want = Fraction(1, n)
+            cands = {"1 / Q(n, m)": lambda: (1 / f.Quantity(n, "meter")).magnitude,
+                     "Q(1, m) / n": lambda: (f.Quantity(1, "meter") / n).magnitude,
+                     "Q(1, m) / Q(n, s)": lambda: (f.Quantity(1, "meter") / f.Quantity(n, "second")).magnitude}
+
+            def idiv_num():
+                q = f.Quantity(1, "meter")
+                q /= n
+                return q.magnitude
+
+            def idiv_q():
+                q = f.Quantity(1, "meter")
+                q /= f.Quantity(n, "second")
+                return q.magnitude
+            cands["q /= n"] = idiv_num
+            cands["q /= Q(n, s)"] = idiv_q
+            for label, fn in cands.items():
+                try:
+                    got = fn()
+                except Exception as exc:  # noqa: BLE001
+                    v.append(f"C03 Fraction registry, int magnitudes, {label} (n={n}): raised {type(exc).__name__}")
+                    continue
+                if isinstance(got, float) or got != want:
+                    v.append(f"C03 Fraction registry, int magnitudes, {label} (n={n}): magnitude {got!r}, the other forms give exactly {want}")
+        return v
+
     def oracle(self, c):
         import numpy as np
         u = regs.ureg("fraction")
+        if not getattr(self, "_fixed_done", False):
+            self._fixed_done = True
+            fv = self.fixed_probes()
+            if fv:
+                return fv
         if c.get("kind") == "context":
             r = self.impl(c)[0]
             if r.get("err") != "DimensionalityError":
